@@ -101,6 +101,11 @@ theorem visit_fnd (cfg : Cfg) (h : FND cfg) (E : Env) (f : Nat) (m : Option Bool
       · have hb : (m == some true) = false := by simpa using h3
         simp [hb]
 
+/-- the frame an entry hook leaves on the shadow stack -/
+def frOf (f start d : Nat) (cyg nr fil notr : Bool) (flt : Filt) : Frame :=
+  { addr := f, start := start, depth := d, cyg := cyg, norecord := nr, filtered := fil, notrace := notr,
+    sDepth := flt.depth, sMaxDepth := flt.maxDepth, sTime := flt.time, sSize := flt.size }
+
 /-- what entry hooks do for a -F / -N / -D / -t configuration, against `visit` -/
 theorem entry_fnd (cfg : Cfg) (h : FND cfg) (k : Kind) (s : St) (E : Env) (d f t0 : Nat)
     (hr : RRel cfg s E d) (hlen : s.frames.length < cfg.maxStack) :
@@ -148,6 +153,369 @@ theorem entry_fnd (cfg : Cfg) (h : FND cfg) (k : Kind) (s : St) (E : Env) (d f t
       rw [he]
       exact ⟨rfl, ⟨by simpa using r1, by simpa using r2, by intro h0; omega, by simpa using r4, by simpa using r5,
         by simpa using r6, r7, r8, r9⟩, Or.inl ⟨rfl, _, rfl, rfl, rfl, rfl, rfl, rfl, rfl, rfl, r7, by simp⟩⟩
-  · sorry
+  · have h1' : ¬ s.filt.outCount > 0 := by omega
+    have hout0 : s.filt.outCount = 0 := by omega
+    have hE0 : E.outC = 0 := by omega
+    have hbud := r3 hE0
+    simp only [h1, ↓reduceIte]
+    have hdl : ∀ g : Filt, depthLimit cfg { filter := m } (saveFilt s.filt) = cfg.depthOpt := by
+      intro g; simp [depthLimit, saveFilt, r4]
+    by_cases h2 : m = some false
+    · -- -N function
+      subst h2
+      simp only [↓reduceIte]
+      have hrel : ∀ (S : St), S.filt.inCount = s.filt.inCount → S.filt.outCount = s.filt.outCount + 1 →
+          S.filt.maxDepth = noMaxDepth → S.filt.time = noTime → S.filt.size = 0 → S.recordIdx = s.recordIdx →
+          S.enabled = s.enabled → S.over = s.over → RRel cfg S { E with outC := E.outC + 1 } d := by
+        intro S a1 a2 a3 a4 a5 a6 a7 a8
+        exact ⟨by rw [a1, r1], by rw [a2, r2], by intro h0; simp at h0, a3, a4, a5, by rw [a6, r7], by rw [a7, r8],
+          by rw [a8, r9]⟩
+      by_cases hD : cfg.depthOpt = 0
+      · have hc : entryFilterCheck cfg s f =
+            (.out, { s with warned := false,
+                            filt := { saveFilt s.filt with outCount := s.filt.outCount + 1, depth := 0 } },
+             { filter := some false }) := by
+          simp [entryFilterCheck, hck, h.fast, h1', htr, matchFilt, earlyOut, h.locIn, trigFilt, trigEnabled, depthLimit, r4, hD,
+            saveFilt]
+        cases k with
+        | pg =>
+          have he : entry cfg .pg s f t0 =
+              ({ s with warned := false,
+                        filt := { saveFilt s.filt with outCount := s.filt.outCount + 1, depth := 0 },
+                        frames := frOf f t0 s.recordIdx false true false true s.filt :: s.frames }, true) := by
+            simp [entry, hc, Trigger.changesState, e1, e5, h.fixd, entryFilterRecord, h.fast, saveFilt, frOf]
+          rw [he]
+          exact ⟨rfl, hrel _ rfl rfl r4 r5 r6 rfl rfl rfl,
+            Or.inl ⟨rfl, _, rfl, rfl, rfl, rfl, rfl, rfl, rfl, rfl, r7, by simp⟩⟩
+        | cyg =>
+          have he : entry cfg .cyg s f t0 =
+              ({ s with warned := false,
+                        filt := { saveFilt s.filt with outCount := s.filt.outCount + 1, depth := 0 },
+                        frames := frOf f 0 s.recordIdx true true false true s.filt :: s.frames }, true) := by
+            simp [entry, hc, e1, e2, entryFilterRecord, h.fast, saveFilt, frOf]
+          rw [he]
+          exact ⟨rfl, hrel _ rfl rfl r4 r5 r6 rfl rfl rfl,
+            Or.inl ⟨rfl, _, rfl, rfl, rfl, rfl, rfl, rfl, rfl, rfl, r7, by simp⟩⟩
+      · have hc : entryFilterCheck cfg s f =
+            (.in_, { s with warned := false,
+                            filt := { saveFilt s.filt with outCount := s.filt.outCount + 1, depth := 1 } },
+             { filter := some false }) := by
+          have : ¬ (0 ≥ cfg.depthOpt) := by omega
+          simp [entryFilterCheck, hck, h.fast, h1', htr, matchFilt, earlyOut, h.locIn, trigFilt, trigEnabled, depthLimit, r4, this,
+            saveFilt]
+        cases k with
+        | pg =>
+          have he : entry cfg .pg s f t0 =
+              ({ s with warned := false,
+                        filt := { saveFilt s.filt with outCount := s.filt.outCount + 1, depth := 1 },
+                        frames := frOf f t0 s.recordIdx false true false true s.filt :: s.frames }, true) := by
+            simp [entry, hc, Trigger.changesState, e3, e6, h.fixd, entryFilterRecord, h.fast, saveFilt, frOf]
+          rw [he]
+          exact ⟨rfl, hrel _ rfl rfl r4 r5 r6 rfl rfl rfl,
+            Or.inl ⟨rfl, _, rfl, rfl, rfl, rfl, rfl, rfl, rfl, rfl, r7, by simp⟩⟩
+        | cyg =>
+          have he : entry cfg .cyg s f t0 =
+              ({ s with warned := false,
+                        filt := { saveFilt s.filt with outCount := s.filt.outCount + 1, depth := 1 },
+                        frames := frOf f t0 s.recordIdx true true false true s.filt :: s.frames }, true) := by
+            simp [entry, hc, e3, e4, entryFilterRecord, h.fast, saveFilt, frOf]
+          rw [he]
+          exact ⟨rfl, hrel _ rfl rfl r4 r5 r6 rfl rfl rfl,
+            Or.inl ⟨rfl, _, rfl, rfl, rfl, rfl, rfl, rfl, rfl, rfl, r7, by simp⟩⟩
+    · simp only [h2, ↓reduceIte]
+      by_cases h3 : m = some true
+      · -- -F function
+        subst h3
+        simp only [BEq.rfl, Bool.not_true, Bool.false_and, Bool.false_eq_true, ↓reduceIte]
+        by_cases hD : cfg.depthOpt = 0
+        · have hc : entryFilterCheck cfg s f =
+              (.out, { s with warned := false,
+                              filt := { saveFilt s.filt with inCount := s.filt.inCount + 1, depth := 0 } },
+               { filter := some true }) := by
+            simp [entryFilterCheck, hck, h.fast, h1', htr, matchFilt, earlyOut, h.locIn, trigFilt, trigEnabled,
+              depthLimit, r4, hD, saveFilt]
+          simp only [hD, ↓reduceIte]
+          have hrel : ∀ (S : St), S.filt.inCount = s.filt.inCount + 1 → S.filt.outCount = s.filt.outCount →
+              S.filt.depth = 0 → S.filt.maxDepth = noMaxDepth → S.filt.time = noTime → S.filt.size = 0 →
+              S.recordIdx = s.recordIdx → S.enabled = s.enabled → S.over = s.over →
+              RRel cfg S { inC := E.inC + 1, outC := E.outC, budget := 0 } d := by
+            intro S a1 a2 a0 a3 a4 a5 a6 a7 a8
+            exact ⟨by rw [a1, r1], by rw [a2, r2], by intro _; simp [a0, hD], a3, a4, a5, by rw [a6, r7],
+              by rw [a7, r8], by rw [a8, r9]⟩
+          cases k with
+          | pg =>
+            have he : entry cfg .pg s f t0 =
+                ({ s with warned := false,
+                          filt := { saveFilt s.filt with inCount := s.filt.inCount + 1, depth := 0 },
+                          frames := frOf f t0 s.recordIdx false true true false s.filt :: s.frames }, true) := by
+              simp [entry, hc, Trigger.changesState, e1, e5, h.fixd, entryFilterRecord, h.fast, saveFilt, frOf]
+            rw [he]
+            exact ⟨rfl, hrel _ rfl rfl rfl r4 r5 r6 rfl rfl rfl,
+              Or.inl ⟨rfl, _, rfl, rfl, rfl, rfl, rfl, rfl, rfl, rfl, r7, by simp⟩⟩
+          | cyg =>
+            have he : entry cfg .cyg s f t0 =
+                ({ s with warned := false,
+                          filt := { saveFilt s.filt with inCount := s.filt.inCount + 1, depth := 0 },
+                          frames := frOf f 0 s.recordIdx true true true false s.filt :: s.frames }, true) := by
+              simp [entry, hc, e1, e2, entryFilterRecord, h.fast, saveFilt, frOf]
+            rw [he]
+            exact ⟨rfl, hrel _ rfl rfl rfl r4 r5 r6 rfl rfl rfl,
+              Or.inl ⟨rfl, _, rfl, rfl, rfl, rfl, rfl, rfl, rfl, rfl, r7, by simp⟩⟩
+        · have hc : entryFilterCheck cfg s f =
+              (.in_, { s with warned := false,
+                              filt := { saveFilt s.filt with inCount := s.filt.inCount + 1, depth := 1 } },
+               { filter := some true }) := by
+            have : ¬ (0 ≥ cfg.depthOpt) := by omega
+            simp [entryFilterCheck, hck, h.fast, h1', htr, matchFilt, earlyOut, h.locIn, trigFilt, trigEnabled,
+              depthLimit, r4, this, saveFilt]
+          simp only [hD, ↓reduceIte]
+          have hrel : ∀ (S : St), S.filt.inCount = s.filt.inCount + 1 → S.filt.outCount = s.filt.outCount →
+              S.filt.depth = 1 → S.filt.maxDepth = noMaxDepth → S.filt.time = noTime → S.filt.size = 0 →
+              S.recordIdx = s.recordIdx + 1 → S.enabled = s.enabled → S.over = s.over →
+              RRel cfg S { inC := E.inC + 1, outC := E.outC, budget := cfg.depthOpt - 1 } (d + 1) := by
+            intro S a1 a2 a0 a3 a4 a5 a6 a7 a8
+            exact ⟨by rw [a1, r1], by rw [a2, r2], by intro _; simp [a0]; omega, a3, a4, a5, by rw [a6, r7],
+              by rw [a7, r8], by rw [a8, r9]⟩
+          cases k with
+          | pg =>
+            have he : entry cfg .pg s f t0 =
+                ({ s with warned := false,
+                          filt := { saveFilt s.filt with inCount := s.filt.inCount + 1, depth := 1 },
+                          recordIdx := s.recordIdx + 1,
+                          frames := frOf f t0 s.recordIdx false false true false s.filt :: s.frames }, true) := by
+              simp [entry, hc, Trigger.changesState, e3, e6, h.fixd, entryFilterRecord, h.fast, saveFilt, frOf, hout0,
+                r6, r8]
+            rw [he]
+            exact ⟨rfl, hrel _ rfl rfl rfl r4 r5 r6 rfl rfl rfl,
+              Or.inl ⟨rfl, _, rfl, rfl, rfl, rfl, rfl, rfl, rfl, rfl, r7, by simp [frOf]⟩⟩
+          | cyg =>
+            have he : entry cfg .cyg s f t0 =
+                ({ s with warned := false,
+                          filt := { saveFilt s.filt with inCount := s.filt.inCount + 1, depth := 1 },
+                          recordIdx := s.recordIdx + 1,
+                          frames := frOf f t0 s.recordIdx true false true false s.filt :: s.frames }, true) := by
+              simp [entry, hc, e3, e4, entryFilterRecord, h.fast, saveFilt, frOf, hout0, r6, r8]
+            rw [he]
+            exact ⟨rfl, hrel _ rfl rfl rfl r4 r5 r6 rfl rfl rfl,
+              Or.inl ⟨rfl, _, rfl, rfl, rfl, rfl, rfl, rfl, rfl, rfl, r7, by simp [frOf]⟩⟩
+      · -- no filter entry for this function
+        have hmn : m = none := by
+          rcases m with _ | (_ | _)
+          · rfl
+          · exact absurd rfl h2
+          · exact absurd rfl h3
+        subst hmn
+        have htr0 : cfg.trig f = {} := htr
+        simp only [Option.none_beq_some, Bool.not_false, Bool.true_and, Bool.false_eq_true, ↓reduceIte] at *
+        have hrelE : ∀ (S : St), S.filt.inCount = s.filt.inCount → S.filt.outCount = s.filt.outCount →
+            S.filt.depth = s.filt.depth → S.filt.maxDepth = noMaxDepth → S.filt.time = noTime → S.filt.size = 0 →
+            S.recordIdx = s.recordIdx → S.enabled = s.enabled → S.over = s.over → RRel cfg S E d := by
+          intro S a1 a2 a0 a3 a4 a5 a6 a7 a8
+          exact ⟨by rw [a1, r1], by rw [a2, r2], by intro h0; rw [a0]; exact r3 h0, a3, a4, a5, by rw [a6, r7],
+            by rw [a7, r8], by rw [a8, r9]⟩
+        have hshape : ∀ (chk : FR × St × Trigger),
+            chk = (.out, { s with warned := false, filt := saveFilt s.filt }, ({} : Trigger)) →
+            entryFilterCheck cfg s f = chk →
+            (entry cfg k s f t0).1.out = s.out ∧ RRel cfg (entry cfg k s f t0).1 E d ∧
+            (((entry cfg k s f t0).2 = true ∧ ∃ F : Frame, (entry cfg k s f t0).1.frames = F :: s.frames ∧
+                F.norecord = true ∧ F.written = false ∧ F.disabled = false ∧
+                F.trace = false ∧ F.caller = false ∧ F.endT = 0 ∧ F.addr = f ∧ F.depth = d) ∨
+             ((entry cfg k s f t0).2 = false ∧ (entry cfg k s f t0).1.frames = s.frames)) := by
+          intro chk hchk hc
+          subst hchk
+          cases k with
+          | pg =>
+            have he : entry cfg .pg s f t0 = ({ s with warned := false, filt := saveFilt s.filt }, false) := by
+              simp [entry, hc, Trigger.changesState, e1, e5]
+            rw [he]
+            exact ⟨rfl, hrelE _ rfl rfl rfl r4 r5 r6 rfl rfl rfl, Or.inr ⟨rfl, rfl⟩⟩
+          | cyg =>
+            have he : entry cfg .cyg s f t0 =
+                ({ s with warned := false, filt := saveFilt s.filt,
+                          frames := frOf f 0 s.recordIdx true true false false s.filt :: s.frames }, true) := by
+              simp [entry, hc, e1, e2, entryFilterRecord, h.fast, saveFilt, frOf]
+            rw [he]
+            exact ⟨rfl, hrelE _ rfl rfl rfl r4 r5 r6 rfl rfl rfl,
+              Or.inl ⟨rfl, _, rfl, rfl, rfl, rfl, rfl, rfl, rfl, rfl, r7⟩⟩
+        by_cases h4 : cfg.optIn = true ∧ E.inC = 0
+        · -- opt-in mode, not below a -F function
+          have h4' : (cfg.optIn && decide (E.inC = 0)) = true := by simp [h4.1, h4.2]
+          have hc : entryFilterCheck cfg s f =
+              (.out, { s with warned := false, filt := saveFilt s.filt }, ({} : Trigger)) := by
+            have : s.filt.inCount = 0 := by rw [r1]; exact h4.2
+            simp [entryFilterCheck, hck, h.fast, h1', htr0, matchFilt, earlyOut, h.locIn, h4.1, this, saveFilt]
+          obtain ⟨o1, o2, o3⟩ := hshape _ rfl hc
+          simp only [h4', ↓reduceIte]
+          refine ⟨o1, o2, ?_⟩
+          rcases o3 with ⟨t, F, q1, q2, q3, q4, q5, q6, q7, q8, q9⟩ | ⟨t, q⟩
+          · exact Or.inl ⟨t, F, q1, by simpa using q2, q3, q4, q5, q6, q7, q8, q9, by simp⟩
+          · exact Or.inr ⟨t, q, by simp⟩
+        · have h4' : (cfg.optIn && decide (E.inC = 0)) = false := by
+            cases ho : cfg.optIn <;> simp_all
+          have hearly : earlyOut cfg ({} : Trigger) (saveFilt s.filt) = false := by
+            have hi : (saveFilt s.filt).inCount = E.inC := by simp [saveFilt, r1]
+            unfold earlyOut
+            dsimp only
+            simp only [hi, h.locIn]
+            cases ho : cfg.optIn <;> simp_all
+          simp only [h4', Bool.false_eq_true, ↓reduceIte]
+          by_cases h5 : E.budget = 0
+          · -- depth budget used up
+            have hdep : s.filt.depth ≥ cfg.depthOpt := by omega
+            have hc : entryFilterCheck cfg s f =
+                (.out, { s with warned := false, filt := saveFilt s.filt }, ({} : Trigger)) := by
+              simp [entryFilterCheck, hck, h.fast, h1', htr0, matchFilt, hearly, trigFilt, trigEnabled, depthLimit, r4,
+                hdep, saveFilt]
+            obtain ⟨o1, o2, o3⟩ := hshape _ rfl hc
+            simp only [h5, ↓reduceIte]
+            have hEE : ({ inC := E.inC, outC := E.outC, budget := 0 } : Env) = E := by
+              cases E; simp_all
+            rw [hEE]
+            refine ⟨o1, o2, ?_⟩
+            rcases o3 with ⟨t, F, q1, q2, q3, q4, q5, q6, q7, q8, q9⟩ | ⟨t, q⟩
+            · exact Or.inl ⟨t, F, q1, by simpa using q2, q3, q4, q5, q6, q7, q8, q9, by simp⟩
+            · exact Or.inr ⟨t, q, by simp⟩
+          · -- shown
+            have hdep : ¬ (s.filt.depth ≥ cfg.depthOpt) := by omega
+            have hc : entryFilterCheck cfg s f =
+                (.in_, { s with warned := false, filt := { saveFilt s.filt with depth := s.filt.depth + 1 } },
+                 ({} : Trigger)) := by
+              have hsd : (saveFilt s.filt).depth = s.filt.depth := rfl
+              have hsm : (saveFilt s.filt).maxDepth = s.filt.maxDepth := rfl
+              have hso : (saveFilt s.filt).outCount = s.filt.outCount := rfl
+              simp only [entryFilterCheck, hck, h.fast, Bool.false_eq_true, ↓reduceIte, hso, h1', htr0, matchFilt,
+                hearly, trigFilt, trigEnabled, depthLimit, hsm, r4, hsd, hdep, Option.getD_none]
+            simp only [h5, ↓reduceIte]
+            have hrel : ∀ (S : St), S.filt.inCount = s.filt.inCount → S.filt.outCount = s.filt.outCount →
+                S.filt.depth = s.filt.depth + 1 → S.filt.maxDepth = noMaxDepth → S.filt.time = noTime →
+                S.filt.size = 0 → S.recordIdx = s.recordIdx + 1 → S.enabled = s.enabled → S.over = s.over →
+                RRel cfg S { inC := E.inC, outC := E.outC, budget := E.budget - 1 } (d + 1) := by
+              intro S a1 a2 a0 a3 a4 a5 a6 a7 a8
+              exact ⟨by rw [a1, r1], by rw [a2, r2], by intro _; simp [a0]; omega, a3, a4, a5, by rw [a6, r7],
+                by rw [a7, r8], by rw [a8, r9]⟩
+            have hnr : (decide (s.filt.inCount = 0) && cfg.optIn) = false := by
+              rw [r1]; cases ho : cfg.optIn <;> simp_all
+            cases k with
+            | pg =>
+              have he : entry cfg .pg s f t0 =
+                  ({ s with warned := false, filt := { saveFilt s.filt with depth := s.filt.depth + 1 },
+                            recordIdx := s.recordIdx + 1,
+                            frames := frOf f t0 s.recordIdx false false false false s.filt :: s.frames }, true) := by
+                simp [entry, hc, Trigger.changesState, e3, e6, h.fixd, entryFilterRecord, h.fast, saveFilt, frOf, hout0,
+                  r6, r8, hnr]
+              rw [he]
+              exact ⟨rfl, hrel _ rfl rfl rfl r4 r5 r6 rfl rfl rfl,
+                Or.inl ⟨rfl, _, rfl, rfl, rfl, rfl, rfl, rfl, rfl, rfl, r7, by simp [frOf]⟩⟩
+            | cyg =>
+              have he : entry cfg .cyg s f t0 =
+                  ({ s with warned := false, filt := { saveFilt s.filt with depth := s.filt.depth + 1 },
+                            recordIdx := s.recordIdx + 1,
+                            frames := frOf f t0 s.recordIdx true false false false s.filt :: s.frames }, true) := by
+                simp [entry, hc, e3, e4, entryFilterRecord, h.fast, saveFilt, frOf, hout0, r6, r8, hnr]
+              rw [he]
+              exact ⟨rfl, hrel _ rfl rfl rfl r4 r5 r6 rfl rfl rfl,
+                Or.inl ⟨rfl, _, rfl, rfl, rfl, rfl, rfl, rfl, rfl, rfl, r7, by simp [frOf]⟩⟩
+
+/-- what the exit hook writes, tracing on, no time= / trace / caller trigger in play -/
+theorem exit_fnd (cfg : Cfg) (h : FND cfg) (s2 : St) (F : Frame) (rest : List Frame) (t1 : Nat)
+    (hfr : s2.frames = F :: rest) (hov : s2.over = 0) (hen : s2.enabled = true) (htime : s2.filt.time = noTime)
+    (hdis : F.disabled = false) (htr : F.trace = false) (ht1 : t1 ≠ 0) :
+    (exit cfg s2 t1).out =
+      (if F.norecord || !(decide (t1 - F.start > cfg.threshold) || F.written) then s2.out
+       else s2.out ++ (if F.written then [] else pend rest ++ [entryRec F]) ++
+              [{ time := t1, type := 1, depth := F.depth, addr := F.addr }]) ∧
+    (exit cfg s2 t1).frames =
+      (if !F.norecord && (decide (t1 - F.start > cfg.threshold) || F.written) && !F.written then mark rest
+       else rest) := by
+  have ho : ¬ s2.over > 0 := by omega
+  have ht1' : (t1 != 0) = true := by simpa using ht1
+  cases hn : F.norecord with
+  | true =>
+    by_cases hc : F.cyg = true
+    · simp [exit, ho, hfr, hc, hn, exitFilterRecord, h.fast]
+    · have hc' : F.cyg = false := by simpa using hc
+      simp [exit, ho, hfr, hc', hn, exitFilterRecord, h.fast]
+  | false =>
+    have hcn : (F.cyg && F.norecord) = false := by simp [hn]
+    cases hw : F.written with
+    | true =>
+      simp [exit, ho, hfr, hcn, hn, hw, exitFilterRecord, h.fast, htime, hen, h.caller, htr, recordTrace, Frame.skip,
+        hdis, ht1', exitRec]
+    | false =>
+      by_cases hd : t1 - F.start > cfg.threshold
+      · simp [exit, ho, hfr, hcn, hn, hw, exitFilterRecord, h.fast, htime, hen, h.caller, htr, recordTrace, Frame.skip,
+          hdis, ht1', exitRec, hd, pend, mark, entryRec]
+      · simp [exit, ho, hfr, hcn, hn, hw, exitFilterRecord, h.fast, htime, hen, h.caller, htr, hd]
+
+/-! ### the recorded stream of a forest -/
+
+def Call.dur : Call → Nat
+  | .node _ t0 t1 _ => t1 - t0
+
+mutual
+  /-- every call takes time on the clock and runs no longer than its caller -/
+  def Call.nestOK : Call → Prop
+    | .node _ t0 t1 kids => t0 < t1 ∧ Calls.allDurLe (t1 - t0) kids
+  def Calls.allDurLe (n : Nat) : Calls → Prop
+    | .nil => True
+    | .cons x rest => Call.dur x ≤ n ∧ Call.nestOK x ∧ Calls.allDurLe n rest
+end
+
+theorem allDurLe_mono (n m : Nat) (hnm : n ≤ m) : ∀ (xs : Calls), Calls.allDurLe n xs → Calls.allDurLe m xs
+  | .nil, _ => trivial
+  | .cons x rest, h => by
+    simp only [Calls.allDurLe] at h ⊢
+    exact ⟨by omega, h.2.1, allDurLe_mono n m hnm rest h.2.2⟩
+
+theorem pruneCall_fnd (cfg : Cfg) (h : FND cfg) (thr f t0 t1 : Nat) (kids : Calls) :
+    pruneCall (RCfg.ofRecord cfg) true thr (.node f t0 t1 kids) =
+      (if decide (t1 - t0 > thr) || !Calls.isNil (pruneCalls (RCfg.ofRecord cfg) true thr kids)
+       then some (.node f t0 t1 (pruneCalls (RCfg.ofRecord cfg) true thr kids)) else none) := by
+  have htr : cfg.trig f = { filter := (cfg.trig f).filter } := h.trig f
+  unfold pruneCall RCfg.ofRecord
+  dsimp only
+  rw [htr]
+  simp [keepDur, h.caller]
+
+mutual
+theorem prune_short_call (cfg : Cfg) (h : FND cfg) (thr : Nat) : ∀ (x : Call), Call.dur x ≤ thr → Call.nestOK x →
+    pruneCall (RCfg.ofRecord cfg) true thr x = none
+  | .node f t0 t1 kids, hd, hn => by
+    simp only [Call.dur] at hd
+    simp only [Call.nestOK] at hn
+    have hk := prune_short_calls cfg h thr kids (allDurLe_mono _ _ hd kids hn.2)
+    rw [pruneCall_fnd cfg h, hk]
+    have : ¬ (t1 - t0 > thr) := by omega
+    simp [this, Calls.isNil]
+theorem prune_short_calls (cfg : Cfg) (h : FND cfg) (thr : Nat) : ∀ (xs : Calls), Calls.allDurLe thr xs →
+    pruneCalls (RCfg.ofRecord cfg) true thr xs = .nil
+  | .nil, _ => rfl
+  | .cons x rest, hn => by
+    simp only [Calls.allDurLe] at hn
+    simp only [pruneCalls, prune_short_call cfg h thr x hn.1 hn.2.1, prune_short_calls cfg h thr rest hn.2.2]
+end
+
+theorem rrel_of_core (cfg : Cfg) (s s' : St) (E : Env) (d : Nat) (hc : core s' = core s) (hen : s'.enabled = true)
+    (hr : RRel cfg s E d) : RRel cfg s' E d := by
+  have h1 : eraseSv s'.filt = eraseSv s.filt := congrArg Core.filt hc
+  have h2 : s'.recordIdx = s.recordIdx := congrArg Core.recordIdx hc
+  have h3 : s'.over = s.over := congrArg Core.over hc
+  have f1 : s'.filt.inCount = s.filt.inCount := by have := congrArg Filt.inCount h1; simpa [eraseSv] using this
+  have f2 : s'.filt.outCount = s.filt.outCount := by have := congrArg Filt.outCount h1; simpa [eraseSv] using this
+  have f3 : s'.filt.depth = s.filt.depth := by have := congrArg Filt.depth h1; simpa [eraseSv] using this
+  have f4 : s'.filt.maxDepth = s.filt.maxDepth := by have := congrArg Filt.maxDepth h1; simpa [eraseSv] using this
+  have f5 : s'.filt.time = s.filt.time := by have := congrArg Filt.time h1; simpa [eraseSv] using this
+  have f6 : s'.filt.size = s.filt.size := by have := congrArg Filt.size h1; simpa [eraseSv] using this
+  exact ⟨by rw [f1, hr.inC], by rw [f2, hr.outC], by intro h0; rw [f3]; exact hr.bud h0, by rw [f4, hr.maxD],
+    by rw [f5, hr.time], by rw [f6, hr.size], by rw [h2, hr.ridx], hen, by rw [h3, hr.over]⟩
+
+theorem fnd_nofinish (cfg : Cfg) (h : FND cfg) (f : Nat) : (cfg.trig f).finish = false := by
+  rw [h.trig f]
+
+theorem core_runCall (cfg : Cfg) (h : FND cfg) (k : Kind) (x : Call) (s : St) (hov : s.over = 0) :
+    core (runCall cfg k s x) = core s := by
+  cases k with
+  | pg => exact Uft.C05.restored_call_pg cfg h.fast h.fixd (fnd_nofinish cfg h) x s (Or.inl hov)
+  | cyg => exact Uft.C05.restored_call cfg h.fast (fnd_nofinish cfg h) x s (Or.inl hov)
 
 end Uft.Fstack
